@@ -8,6 +8,21 @@ fn fmt(input: &str, cfg: &Cfg) -> String {
     String::from_utf8(run_real(input, cfg, &[]).0).unwrap()
 }
 
+/// C04 work bound: the number of line-wrapping searches (`find_optimal_solution` calls, counted by a guarded hook) stays
+/// linear in the number of tokens.  Deterministic, unlike a time limit.  `VERIF_C04_K` overrides the factor (calibration).
+pub fn c04_work(input: &str, cfg: &Cfg) -> Vec<String> {
+    pasfmt_core::verif::reset_search_count();
+    let _ = fmt(input, cfg);
+    let n = pasfmt_core::verif::search_count();
+    let toks = lex_offsets(input).len() as u64;
+    let k: u64 = std::env::var("VERIF_C04_K").ok().and_then(|x| x.parse().ok()).unwrap_or(16);
+    if n > k * (toks + 8) {
+        vec![format!("c04: {} line-wrapping searches for {} tokens (more than {} per token)", n, toks, k)]
+    } else {
+        vec![]
+    }
+}
+
 pub fn is_blank_char(c: char) -> bool {
     c <= ' ' || c == '\u{3000}'
 }
